@@ -7,3 +7,4 @@ pub mod cast;
 pub mod lock;
 pub mod orpat;
 pub mod guard;
+pub mod panic;
